@@ -607,14 +607,15 @@ func rulesSamHeader(c *Ctx, r *Report) {
 		sy := newSymb(f)
 		lineExpr := sy.expr(split).String()
 		var extra []string
-		for _, part := range strings.Split(guardOf(sy, join.Block(), nil), " && ") {
+		_, atoms := guardOfFull(sy, join.Block(), nil)
+		for _, part := range atoms {
 			if !strings.Contains(part, lineExpr) {
 				continue
 			}
-			if strings.Contains(part, "strings.HasPrefix(") && !strings.HasPrefix(part, "!") {
+			if strings.Contains(part, "strings.HasPrefix(") {
 				continue
 			}
-			if part == "(0 < builtin:len("+lineExpr+"))" || part == "!(0 == builtin:len("+lineExpr+"))" || part == "(0 != builtin:len("+lineExpr+"))" || part == "(1 <= builtin:len("+lineExpr+"))" {
+			if part == "(0 < builtin:len("+lineExpr+"))" || part == "(0 == builtin:len("+lineExpr+"))" || part == "(0 != builtin:len("+lineExpr+"))" || part == "(1 <= builtin:len("+lineExpr+"))" {
 				continue // always true after strings.Split
 			}
 			extra = append(extra, part)
